@@ -1,8 +1,157 @@
-(* C11 -- property theorems only. *)
-From Coq Require Import ZArith QArith Bool List.
-From SV Require Import C11.Model C11.Spec C11.Proofs.
+(* C11 -- property theorems only.  Each is closed by `exact <lemma>`.
+   hs is the string hash (hashtable.go hashString), a parameter.
+   ok v := fits CompareLimit v : v is in the property's value universe (None, bool,
+   int, float, string, bytes, tuple, list, range, struct, function, builtin, time,
+   duration) and nested within the comparison depth limit (boolean guard). *)
+From Coq Require Import ZArith QArith Bool List Permutation Sorted.
+From SV Require Import C11.Model C11.Spec C11.ProofsAtom C11.ProofsValue C11.ProofsLaws C11.ProofsHash C11.Proofs C11.ProofsSort C11.ProofsIsort.
 Import ListNotations.
 Open Scope Z_scope.
 
-Theorem threeway_neq_negation : forall c, threeway NEQ c = negb (threeway EQL c).
-Proof. exact (threeway_neq EQL). Qed.
+(* The six operators are the six readings of ONE specified three-way comparison of
+   exact values (Spec.cmp3: numbers as rationals with NaN greatest and equal to
+   itself, lexicographic strings / bytes / tuples / lists, identity-only types). *)
+Theorem compare_exact :
+  forall hs x y, ok x = true -> ok y = true ->
+    exists o, cmp3 CompareLimit x y = Some o /\ forall op, compare hs op x y = interp op o.
+Proof. exact cmp_spec. Qed.
+
+(* == is reflexive (NaN and lists containing NaN included), symmetric, transitive *)
+Theorem eq_equivalence :
+  forall hs,
+    (forall x, ok x = true -> compare hs EQL x x = Ok true) /\
+    (forall x y, ok x = true -> ok y = true -> compare hs EQL x y = compare hs EQL y x) /\
+    (forall x y z, ok x = true -> ok y = true -> ok z = true ->
+       compare hs EQL x y = Ok true -> compare hs EQL y z = Ok true -> compare hs EQL x z = Ok true).
+Proof. intro hs. exact (conj (eq_refl_lemma hs) (conj (eq_sym_lemma hs) (eq_trans_lemma hs))). Qed.
+
+(* within the limit == always answers, and != answers the negation *)
+Theorem neq_is_negation :
+  forall hs x y, ok x = true -> ok y = true ->
+    exists b, compare hs EQL x y = Ok b /\ compare hs NEQ x y = Ok (negb b).
+Proof. exact eq_total_lemma. Qed.
+
+(* equal values are interchangeable in every comparison, on either side *)
+Theorem eq_interchangeable :
+  forall hs x y z, ok x = true -> ok y = true -> ok z = true -> compare hs EQL x y = Ok true ->
+    forall op, compare hs op x z = compare hs op y z /\ compare hs op z x = compare hs op z y.
+Proof. exact eq_congr_lemma. Qed.
+
+(* x == y -> hash x = hash y : 1 / 1.0, 2^64 / 2.0^64, -0.0 / 0, tuples and structs of
+   such; both unhashable for lists and ranges *)
+Theorem eq_hash :
+  forall hs x y, ok x = true -> ok y = true -> compare hs EQL x y = Ok true -> hash hs x = hash hs y.
+Proof. exact eq_hash_lemma. Qed.
+
+(* equal (atom) keys find the same dict entry / set member (hashtable.lookup = hash filter + Equal) *)
+Theorem dict_key_interchangeable :
+  forall hs a b, atom_compare EQL a b = Ok true ->
+    (forall kv, dict_get hs kv a = dict_get hs kv b) /\ (forall l, set_has hs l a = set_has hs l b).
+Proof.
+  intros hs a b H. rewrite atom_compare_spec in H. apply (interp_eql_true) in H.
+  split; intro; [apply dict_get_congr|apply set_has_congr]; exact H.
+Qed.
+
+(* one total order modulo ==: whenever < answers at all, all six operators answer in
+   both directions, exactly one of <, ==, > holds, <= is (< or ==), >= is (> or ==),
+   x > y is y < x *)
+Theorem order_total :
+  forall hs x y l, ok x = true -> ok y = true -> compare hs LT x y = Ok l ->
+    exists e g,
+      compare hs EQL x y = Ok e /\ compare hs GT x y = Ok g /\ compare hs NEQ x y = Ok (negb e) /\
+      compare hs LE x y = Ok (l || e) /\ compare hs GE x y = Ok (g || e) /\
+      compare hs LT y x = Ok g /\ compare hs GT y x = Ok l /\ compare hs LE y x = Ok (g || e) /\ compare hs GE y x = Ok (l || e) /\
+      ((l = true /\ e = false /\ g = false) \/ (l = false /\ e = true /\ g = false) \/ (l = false /\ e = false /\ g = true)).
+Proof. exact order_total_lemma. Qed.
+
+Theorem lt_transitive :
+  forall hs x y z, ok x = true -> ok y = true -> ok z = true ->
+    compare hs LT x y = Ok true -> compare hs LT y z = Ok true -> compare hs LT x z = Ok true.
+Proof. exact lt_trans_lemma. Qed.
+
+(* on each ordered class (int and float together, string, bytes, bool, time, duration,
+   tuples / lists of one class, recursively) < always answers: with order_total and
+   lt_transitive, a strict total order modulo == *)
+Theorem order_classes_total :
+  forall hs c x y, has_cls c x = true -> has_cls c y = true -> ok x = true -> ok y = true ->
+    exists l, compare hs LT x y = Ok l.
+Proof. exact class_comparable_lemma. Qed.
+
+(* beyond the depth limit: an answer given at ANY depth d is the specified answer
+   (so deeper values get the depth error or the right answer, never a wrong one) *)
+Theorem depth_limit_sound :
+  forall hs d D op x y b, (d <= D)%nat -> fits D x = true -> fits D y = true ->
+    compare_depth hs d op x y = Ok b ->
+    exists o, cmp3 D x y = Some o /\ interp op o = Ok b.
+Proof. exact depth_sound_lemma. Qed.
+
+(* sortSlice.Less (and its sort.Reverse) is a strict weak order on any sequence of
+   pairwise comparable keys: the obligation sort.Stable places on its caller *)
+Theorem sorted_less_strict_weak_order :
+  forall hs items, keys_ok items -> all_comparable hs items = true ->
+    swo_on (value * value) (less hs) items /\ swo_on (value * value) (rev_less hs) items.
+Proof. intros hs items K C. exact (conj (less_swo hs items K C) (rev_less_swo hs items K C)). Qed.
+
+(* sorted(items, key, reverse) for any sort function meeting the stable-sort contract
+   (oracle: Go's sort.Stable): the undecorated output of a permutation of the decorated
+   input that is sorted w.r.t. the order (reversed order when reverse) and keeps
+   equivalent elements in input order *)
+Theorem sorted_spec :
+  forall hs srt, stable_sort_contract (value * value) srt ->
+    forall (items : list (value * value)) (reverse : bool),
+      keys_ok items -> all_comparable hs items = true ->
+      let lt : value * value -> value * value -> bool := if reverse then rev_less hs else less hs in
+      exists out,
+        sorted_with hs srt items reverse = map snd out /\
+        Permutation items out /\
+        StronglySorted (fun a b => lt b a = false) out /\
+        (forall e, In e items -> filter (equiv (value * value) lt e) out = filter (equiv (value * value) lt e) items).
+Proof. exact sorted_spec_lemma. Qed.
+
+(* the contract assumed for sort.Stable is satisfiable: the insertion sort used as
+   its executable stand-in in the correspondence check meets it (for every order
+   and every input) *)
+Theorem stable_sort_contract_instance : stable_sort_contract (value * value) (@isort (value * value)).
+Proof. exact (isort_meets_contract (value * value)). Qed.
+
+(* min / max: the FIRST element than which none is strictly smaller / greater *)
+Theorem minmax_spec :
+  forall hs (ismax : bool) (items : list (value * value)),
+    keys_ok items -> all_comparable hs items = true -> items <> [] ->
+    exists b p,
+      minmax hs (mmop ismax) items = Some (Ok (snd b)) /\
+      nth_error items p = Some b /\
+      (forall x, In x items -> better hs ismax x b = false) /\
+      (forall q x, (q < p)%nat -> nth_error items q = Some x -> better hs ismax b x = true).
+Proof. exact minmax_spec_lemma. Qed.
+
+(* ---- non-vacuity: the premises hold on concrete non-trivial inputs ---- *)
+Definition h0 (s : list Z) : Z := 7.
+Definition big : Z := 18446744073709551616.
+Definition ex_x : value := VTuple [VAtom (AInt big); VList [VAtom (AFloat FNaN)]; VAtom (AInt 0)].
+Definition ex_y : value := VTuple [VAtom (AFloat (FFin false 1 64)); VList [VAtom (AFloat FNaN)]; VAtom (AFloat (FFin true 0 0))].
+Definition ex_z : value := VTuple [VAtom (AInt (big + 1)); VList []].
+
+Example premises_hold :
+  ok ex_x = true /\ ok ex_y = true /\ ok ex_z = true /\
+  compare h0 EQL ex_x ex_y = Ok true /\ compare h0 LT ex_y ex_z = Ok true /\
+  compare h0 LT ex_x ex_z = Ok true /\
+  hash h0 (VTuple [VAtom (AInt big)]) = hash h0 (VTuple [VAtom (AFloat (FFin false 1 64))]) /\
+  hash h0 (VTuple [VAtom (AInt big)]) <> None /\
+  has_cls (CTuple CNum) (VTuple [VAtom (AInt 1); VAtom (AFloat FNaN)]) = true /\
+  atom_compare EQL (AInt 1) (AFloat (FFin false 1 0)) = Ok true /\
+  compare_depth h0 3 EQL (VList [VList [VList [VList []]]]) (VList [VList [VList [VList []]]]) = ErrDepth /\
+  compare_depth h0 1 EQL (VList [VList [VList []]]) (VList []) = Ok false.
+Proof. vm_compute. repeat split; discriminate. Qed.
+
+Definition ex_items : list (value * value) :=
+  [(VAtom (AFloat (FFin false 1 0)), VAtom (AStr [97])); (VAtom (AInt 0), VAtom (AStr [98]));
+   (VAtom (AInt 1), VAtom (AStr [99])); (VAtom (AFloat FNaN), VAtom (AStr [100])); (VAtom (AFloat (FFin true 0 0)), VAtom (AStr [101]))].
+
+Example sort_premises_hold :
+  all_comparable h0 ex_items = true /\ ex_items <> [] /\
+  forallb (fun it => ok (fst it)) ex_items = true /\
+  sorted_with h0 (@isort _) ex_items false = [VAtom (AStr [98]); VAtom (AStr [101]); VAtom (AStr [97]); VAtom (AStr [99]); VAtom (AStr [100])] /\
+  sorted_with h0 (@isort _) ex_items true = [VAtom (AStr [100]); VAtom (AStr [97]); VAtom (AStr [99]); VAtom (AStr [98]); VAtom (AStr [101])] /\
+  minmax h0 LT ex_items = Some (Ok (VAtom (AStr [98]))) /\ minmax h0 GT ex_items = Some (Ok (VAtom (AStr [100]))).
+Proof. vm_compute. repeat split; discriminate. Qed.
